@@ -213,6 +213,24 @@ def r13(facts, res):
     for p in ps:
         complete = sym_eq = None
         for c, v in p.conds:
+            if c[0] == 'bin' and c[1] in ('Lt', 'Le', 'Gt', 'Ge') and isinstance(v, int) and has_call(c, 'prod_len'):
+                # dot <= prod_len always holds, so `dot < prod_len` is "incomplete" (and its mirror images)
+                a, d = c[2], c[3]
+                pl_first = is_call(strip_ref(a), 'prod_len')
+                pl = a if pl_first else d
+                other = d if pl_first else a
+                if not (is_call(strip_ref(pl), 'prod_len') and item_comp(strip_ref(pl)[2][1]) == (0, 0, 0) and item_comp(other) == (0, 0, 1)):
+                    bad.append('completeness is not tested by comparing dot with prod_len(the item\'s production)')
+                    continue
+                op = c[1] if v == 1 else {'Lt': 'Ge', 'Ge': 'Lt', 'Le': 'Gt', 'Gt': 'Le'}[c[1]]
+                if pl_first:
+                    op = {'Lt': 'Gt', 'Gt': 'Lt', 'Le': 'Ge', 'Ge': 'Le'}[op]      # now: dot OP prod_len
+                if op == 'Lt':
+                    complete = False
+                elif op == 'Ge':
+                    complete = True
+                else:
+                    bad.append('completeness is tested with dot %s prod_len, which does not separate complete from incomplete items' % op)
             if c[0] == 'bin' and c[1] in ('Eq', 'Ne') and isinstance(v, int):
                 truth = (v == 1) if c[1] == 'Eq' else (v == 0)
                 a, d = c[2], c[3]
